@@ -324,13 +324,31 @@ def direct_clauses(pid, bench, ta, a, tb, b):
     clause that fails"""
     mk = lambda c, v: VersionConstraint(comparator=c, version=v)   # noqa: E731
     R = bench.rclass
+    from harness import layera as _A
+    _dom = {}
+
+    def in_domain(t):
+        """a third version may join the two only inside the domain of the scheme's order theorem (alpm: all with or all
+        without a pkgrel; maven: the documented shape; conan: numbers and words never share a position): outside it the
+        order is not a strict weak order on the unchanged tree (recorded: K01, and the domain notes of C01)"""
+        if t not in _dom:
+            ok = _A.c01_in_domain(bench.name, [ta, tb, t])
+            try:
+                if ok and bench.name == "maven":
+                    ok = common.run_model(["vdomain maven %s" % common.hx(t)])[0].strip() == "in"
+                if ok and bench.name == "conan":
+                    ok = all(common.run_model(["vcompat conan %s %s" % (common.hx(t), common.hx(u))])[0].strip() == "in" for u in (ta, tb))
+            except Exception:  # noqa: BLE001
+                ok = False
+            _dom[t] = ok
+        return _dom[t]
     for x, tx, y, ty in ((a, ta, b, tb), (b, tb, a, ta)):
         for c, d in COMPLEMENTS:
             rc, rd = R(constraints=[mk(c, y)]), R(constraints=[mk(d, y)])
             if pid == "C04" and c in ("<=", "<"):
                 # a bound far away on the other side changes nothing: x against [>= y] and [>= y | < top], where top is
                 # above both (the single-constraint shortcut and the interval scan must agree)
-                reps = [cl[0] for cl in bench.pool.classes]
+                reps = [cl[0] for cl in bench.pool.classes if in_domain(cl[0][0])]
                 for lowc, upc, far in ((">=", "<", reps[-1:]), (">", "<=", reps[-1:]), ("<=", ">", reps[:1]), ("<", ">=", reps[:1])):
                     for tf, fv in far:
                         try:
@@ -353,7 +371,7 @@ def direct_clauses(pid, bench, ta, a, tb, b):
                            {"version": tx, "range_1": str(rc), "in_1": m1, "range_2": str(rd), "in_2": m2})
             elif pid == "C09":
                 # ... and a range of two constraints: the version against a bound of the pool on the other side
-                for tm, mv in [cl[0] for cl in (bench.pool.classes[:1] + bench.pool.classes[-1:])]:
+                for tm, mv in [cl[0] for cl in (bench.pool.classes[:1] + bench.pool.classes[-1:]) if in_domain(cl[0][0])]:
                     for c2 in ("<", ">=", "!="):
                         # the property speaks about ranges in which every '!=' lies inside an included interval (or
                         # there are only '!=') and every '=' lies outside all intervals
@@ -423,7 +441,7 @@ def direct_clauses(pid, bench, ta, a, tb, b):
         if pid == "C10" and x is a:
             # the two versions among a few ranked versions of the pool as the known versions, against ranges that
             # contain all, or all but one, of them
-            reps = [cl[0] for cl in bench.pool.classes]
+            reps = [cl[0] for cl in bench.pool.classes if in_domain(cl[0][0])]
             known = [(tx, x), (ty, y)] + reps[:3] + reps[-3:]
             star = VersionConstraint(comparator="*", version_class=bench.cls)
             ranges = [R(constraints=[star])]
@@ -479,7 +497,7 @@ def direct_clauses(pid, bench, ta, a, tb, b):
                     mids.append((t, S.make(bench.name, t)))
                 except Exception:  # noqa: BLE001
                     pass
-            for tm, mv in mids:
+            for tm, mv in [m_ for m_ in mids if in_domain(m_[0])]:
                 for cs3 in (((">=", x), ("<", mv), (">=", y)), (("<=", x), (">", mv), ("<=", y)), (("=", x), ("!=", mv), ("=", y))):
                     try:
                         cons = sorted(mk(c, v) for c, v in cs3)
@@ -487,7 +505,7 @@ def direct_clauses(pid, bench, ta, a, tb, b):
                         r1, r2 = R(constraints=cons), R(constraints=simp)
                     except Exception:  # noqa: BLE001
                         continue
-                    for k, tk in [(x, tx), (y, ty), (mv, tm)] + [(cl[0][1], cl[0][0]) for cl in bench.pool.classes[:8]]:
+                    for k, tk in [(x, tx), (y, ty), (mv, tm)] + [(cl[0][1], cl[0][0]) for cl in bench.pool.classes[:8] if in_domain(cl[0][0])]:
                         m1, m2 = _mem(r1, k), _mem(r2, k)
                         if isinstance(m1, bool) and m1 != m2:
                             yield ("simplification changes the membership of a version",
